@@ -1158,7 +1158,8 @@ def _fn_instance_attr(p, route):
 
 def getdoc_explains(b, recv_obj, n, key):
     """The first hit for n along the receiver's MRO is a doc-less function / property / slot and
-    getattr(base, n) on a LATER base runs exactly the hook `key` (what inspect._finddoc does)."""
+    getattr(base, n) on a class of that MRO runs exactly the hook `key` (what inspect._finddoc does:
+    a same-named user descriptor in a base class, or a metaclass data descriptor of that name)."""
     T = recv_obj if isinstance(recv_obj, type) else type(recv_obj)
     mro = list(class_mro(T))
     for i, c in enumerate(mro):
@@ -1170,7 +1171,7 @@ def getdoc_explains(b, recv_obj, n, key):
                 or f.__doc__ is not None:
             return False
         hit = False
-        for base in mro[i + 1:]:
+        for base in mro:       # inspect._finddoc: `for base in cls.__mro__: getattr(base, name)`
             b.C.clear()
             try:
                 getattr(base, n)
